@@ -1,6 +1,6 @@
 (* C16 — proofs about Model/Validation.v, Model/Doc.v and the regenerated Gen/Constraints.v. *)
 From Coq Require Import List ZArith QArith String Bool Arith Lia Btauto Permutation Sorted.
-From GV Require Import Model.Validation Model.Doc Gen.Constraints.
+From GV Require Import Model.Validation Model.Doc Gen.Constraints Gen.ValidationRules.
 Import ListNotations.
 Open Scope string_scope.
 Open Scope list_scope.
@@ -575,20 +575,50 @@ Proof.
   rewrite (no_check_accepts (writes attrs) [] (writes_no_check attrs)). unfold writes. rewrite map_map, map_id, app_nil_r. reflexivity.
 Qed.
 
+(* the fit models are the golden event lists read with the outcomes of the checks; spelled out: *)
+Lemma fit_base_steps : forall w k, fit_base w k =
+  [Check (params_ok k); Check (x_ok k); Check (x_ok k); Check (samples_ok k); Write "n_features_in_"%string; Check (affinity_ok k); Check (cross_ok k)] ++
+  writes w ++ [Write "optimiser_"; Write "labels_"; Write "n_iter_"]%string.
+Proof. intros w k. unfold fit_base, interp, golden_base_fit. simpl. reflexivity. Qed.
+Lemma fit_sparse_steps : forall w k, fit_sparse w k =
+  [Check (params_ok k); Check (x_ok k); Check (samples_ok k); Write "n_features_in_"%string; Check (groups_ok k); Write "groups_"%string] ++ fit_base w k.
+Proof. intros w k. unfold fit_sparse, interp, golden_sparse_fit. cbn -[fit_base]. rewrite app_nil_r. reflexivity. Qed.
+Lemma fit_kernelrim_steps : forall k, fit_kernelrim k =
+  [Check (params_ok k); Check (x_ok k); Write "input_data_"%string; Check (affinity_ok k); Write "training_kernel_"%string] ++
+  fit_base ["W_"; "b_"]%string k ++ [Write "n_features_in_"%string].
+Proof. intros k. unfold fit_kernelrim, interp, golden_kernelrim_fit. cbn -[fit_base]. reflexivity. Qed.
+Lemma fit_kauri_steps : forall k, fit_kauri k =
+  [Check (params_ok k); Check (x_ok k); Check (x_ok k); Check (samples_ok k); Write "n_features_in_"; Check (cross_ok k); Check (affinity_ok k);
+   Write "n_features_in_"; Write "tree_"; Write "labels_"; Write "leaves_"]%string.
+Proof. reflexivity. Qed.
+Lemma fit_douglas_steps : forall mask_none len_ok sel_ok k, fit_douglas mask_none len_ok sel_ok k =
+  [Check (params_ok k); Check (x_ok k); Check (x_ok k); Check (samples_ok k); Write "n_features_in_"%string; Check (affinity_ok k)] ++
+  (if mask_none then [Write "cut_points_list_"%string] else [Check len_ok; Check sel_ok; Write "cut_points_list_"%string]) ++
+  [Write "leaf_scores_"; Write "optimiser_"; Write "labels_"; Write "n_iter_"]%string.
+Proof. intros [] len_ok sel_ok k; reflexivity. Qed.
+
+Lemma run_writes : forall l w tail, run (writes l ++ tail) w = run tail (rev l ++ w).
+Proof. induction l as [|a r IH]; intros w tail; simpl; [reflexivity|]. rewrite IH, <- app_assoc. reflexivity. Qed.
+
 (* the code as it is.  DiscriminativeModel.fit and Kauri.fit: every check precedes every write except that of
    n_features_in_ (made by validate_data itself): a rejected fit has written nothing (hyper-parameters, data) or
    n_features_in_ only (affinity, cross-parameter rule). *)
 Lemma fit_base_rejection : forall w k, fst (run (fit_base w k) []) = false ->
   snd (run (fit_base w k) []) = (if params_ok k && x_ok k && samples_ok k then ["n_features_in_"%string] else []).
 Proof.
-  intros w [p x m g c a]. unfold fit_base. simpl. destruct p, x, m, a, c; simpl; intros H; try reflexivity.
-  rewrite (no_check_accepts (writes w ++ [Write "optimiser_"; Write "labels_"; Write "n_iter_"]%string)) in H; [discriminate|].
-  clear H. induction w; simpl; auto.
+  intros w [p x m g c a]. rewrite fit_base_steps. simpl. destruct p, x, m, a, c; simpl; intros H; try reflexivity.
+  rewrite run_writes in H. discriminate.
 Qed.
 Lemma fit_kauri_rejection : forall k, fst (run (fit_kauri k) []) = false ->
   snd (run (fit_kauri k) []) = (if params_ok k && x_ok k && samples_ok k then ["n_features_in_"%string] else []).
 Proof.
-  intros [p x m g c a]. unfold fit_kauri. simpl. destruct p, x, m, c, a; simpl; intros H; try discriminate; reflexivity.
+  intros [p x m g c a]. rewrite fit_kauri_steps. simpl. destruct p, x, m, c, a; simpl; intros H; try discriminate; reflexivity.
+Qed.
+(* Douglas, with _init_params spelled out: both feature-mask tests come before cut_points_list_ *)
+Lemma fit_douglas_rejection : forall mask_none len_ok sel_ok k, fst (run (fit_douglas mask_none len_ok sel_ok k) []) = false ->
+  snd (run (fit_douglas mask_none len_ok sel_ok k) []) = (if params_ok k && x_ok k && samples_ok k then ["n_features_in_"%string] else []).
+Proof.
+  intros mn lo so [p x m g c a]. rewrite fit_douglas_steps. simpl. destruct p, x, m, a, mn, lo, so; simpl; intros H; try discriminate; reflexivity.
 Qed.
 (* the sparse models: hyper-parameters, data and sample count are validated before anything is stored; the group check
    follows n_features_in_; only the bookkeeping attributes n_features_in_ / groups_ can survive a later rejection *)
@@ -596,9 +626,8 @@ Lemma fit_sparse_rejection : forall w k, fst (run (fit_sparse w k) []) = false -
   snd (run (fit_sparse w k) []) =
     (if params_ok k && x_ok k && samples_ok k then (if groups_ok k then ["n_features_in_"; "groups_"; "n_features_in_"]%string else ["n_features_in_"%string]) else []).
 Proof.
-  intros w [p x m g c a]. unfold fit_sparse, fit_base. simpl. destruct p, x, m, g, a, c; simpl; intros H; try reflexivity.
-  rewrite (no_check_accepts (writes w ++ [Write "optimiser_"; Write "labels_"; Write "n_iter_"]%string)) in H; [discriminate|].
-  clear H. induction w; simpl; auto.
+  intros w [p x m g c a]. rewrite fit_sparse_steps, fit_base_steps. simpl. destruct p, x, m, g, a, c; simpl; intros H; try reflexivity.
+  rewrite run_writes in H. discriminate.
 Qed.
 (* KernelRIM: hyper-parameters and data first; the training data and its kernel are stored before the sample count is
    compared with n_clusters *)
@@ -609,18 +638,19 @@ Lemma fit_kernelrim_rejection : forall k, fst (run (fit_kernelrim k) []) = false
         else ["input_data_"%string])
      else []).
 Proof.
-  intros [p x m g c a]. unfold fit_kernelrim, fit_base. simpl. destruct p, x, a, m, c; simpl; intros H; try discriminate; reflexivity.
+  intros [p x m g c a]. rewrite fit_kernelrim_steps, fit_base_steps. simpl. destruct p, x, a, m, c; simpl; intros H; try discriminate; reflexivity.
 Qed.
 Definition all_ok : checks := {| params_ok := true; x_ok := true; samples_ok := true; groups_ok := true; cross_ok := true; affinity_ok := true |}.
 Definition bad_affinity : checks := {| params_ok := true; x_ok := true; samples_ok := true; groups_ok := true; cross_ok := true; affinity_ok := false |}.
 Definition bad_params : checks := {| params_ok := false; x_ok := true; samples_ok := true; groups_ok := true; cross_ok := true; affinity_ok := true |}.
 Definition bad_samples : checks := {| params_ok := true; x_ok := true; samples_ok := false; groups_ok := true; cross_ok := true; affinity_ok := true |}.
-(* regression statements for the repaired orders (each was a leak before the fix: commits f3fd784, c877076, 529a37a) *)
+(* regression statements for the repaired orders (each was a leak before the fix: commits f3fd784, c877076, 529a37a, 5d14425) *)
 Lemma fit_asis_repaired :
   run (fit_base ["W_"; "b_"]%string bad_affinity) [] = (false, ["n_features_in_"]%string) /\
   run (fit_sparse ["W_"; "b_"]%string bad_params) [] = (false, []) /\
   run (fit_sparse ["W_"; "b_"]%string bad_samples) [] = (false, []) /\
-  run (fit_kernelrim bad_params) [] = (false, []).
+  run (fit_kernelrim bad_params) [] = (false, []) /\
+  run (fit_douglas false true false all_ok) [] = (false, ["n_features_in_"]%string).
 Proof. repeat split. Qed.
 (* what is still not "validate first": KernelRIM with fewer samples than n_clusters *)
 Lemma fit_asis_leaves_attributes :
@@ -672,3 +702,134 @@ Qed.
 Lemma precomputed_ok_spec : forall ndim rows cols n numeric finite, precomputed_ok ndim rows cols n numeric finite = true <->
   (ndim = 2 /\ numeric = true /\ finite = true /\ rows = cols /\ rows = n).
 Proof. intros. unfold precomputed_ok. rewrite !andb_true_iff, !Nat.eqb_eq. tauto. Qed.
+
+(* ================================================================================================ the regenerated rules *)
+(* check_groups, translated statement by statement (check_groups_golden = the regenerated check_groups_gen, Props/C16.v),
+   computes what the hand model computes *)
+Definition bad_entry (i : gentry) : bool := py_is_bool i || negb (py_is_int i).
+Lemma bad_entry_ints : forall l, existsb bad_entry (map GInt l) = false.
+Proof. induction l; simpl; auto. Qed.
+Lemma all_ints_none : forall l, all_ints l = None -> existsb bad_entry l = true.
+Proof.
+  induction l as [|e r IH]; simpl; [discriminate|]. destruct e as [z|b|]; simpl; try reflexivity.
+  destruct (all_ints r); [discriminate|]. intros _. apply IH. reflexivity.
+Qed.
+Lemma all_int_groups_none : forall g, all_int_groups g = None -> existsb bad_entry (List.concat g) = true.
+Proof.
+  induction g as [|x r IH]; simpl; [discriminate|]. rewrite existsb_app. destruct (all_ints x) eqn:Ex.
+  - destruct (all_int_groups r); [discriminate|]. intros _. rewrite IH by reflexivity. apply orb_true_r.
+  - intros _. rewrite (all_ints_none x Ex). reflexivity.
+Qed.
+Lemma concat_ints : forall gz, List.concat (map (map GInt) gz) = map GInt (List.concat gz).
+Proof. induction gz as [|x r IH]; simpl; [reflexivity|]. rewrite IH, map_app. reflexivity. Qed.
+Lemma entry_z_ints : forall l, map entry_z (map GInt l) = l.
+Proof. induction l; simpl; [|f_equal]; auto. Qed.
+Lemma py_in_ints : forall x l, py_in (GInt x) (map GInt l) = zmem x l.
+Proof. intros x l. unfold py_in, zmem. induction l; simpl; [|f_equal]; auto. Qed.
+Lemma py_range_ints : forall d, py_range d = map GInt (zrange d).
+Proof. intros d. unfold py_range, zrange. rewrite map_map. reflexivity. Qed.
+Lemma forallb_map : forall A B (f : B -> bool) (g : A -> B) l, forallb f (map g l) = forallb (fun x => f (g x)) l.
+Proof. induction l; simpl; [|f_equal]; auto. Qed.
+Lemma forallb_ext' : forall A (f g : A -> bool) l, (forall x, f x = g x) -> forallb f l = forallb g l.
+Proof. intros A f g l H. induction l; simpl; [|rewrite H, IHl]; reflexivity. Qed.
+Lemma py_set_eq_ints : forall a b, py_set_eq (map GInt a) (map GInt b) = set_eqb a b.
+Proof.
+  intros a b. unfold py_set_eq, set_eqb. rewrite !forallb_map. f_equal; apply forallb_ext'; intros x; apply py_in_ints.
+Qed.
+Lemma py_set_ints : forall l, py_set (map GInt l) = map GInt (dedup l).
+Proof.
+  induction l as [|x r IH]; simpl; [reflexivity|]. rewrite py_in_ints. destruct (zmem x r); simpl; [|f_equal]; exact IH.
+Qed.
+Lemma filter_map_ints : forall (f : gentry -> bool) l, filter f (map GInt l) = map GInt (filter (fun z => f (GInt z)) l).
+Proof. induction l as [|x r IH]; simpl; [reflexivity|]. destruct (f (GInt x)); simpl; [f_equal|]; exact IH. Qed.
+
+Lemma check_groups_golden_ints : forall gz d,
+  check_groups_golden (map (map GInt) gz) d = option_map (map (map GInt)) (check_groups gz d).
+Proof.
+  intros gz d. unfold check_groups_golden, check_groups. cbv zeta. rewrite concat_ints.
+  set (all := List.concat gz). fold bad_entry. rewrite bad_entry_ints. rewrite map_length.
+  assert (Hr : (Nat.ltb 0 (List.length all) && (Z.ltb (py_min (map GInt all)) 0 || Z.geb (py_max (map GInt all)) (Z.of_nat d)))
+               = match all with [] => false | x :: r => (zmin x r <? 0)%Z || (Z.of_nat d <=? zmax x r)%Z end).
+  { destruct all as [|x r]; [reflexivity|]. simpl. rewrite entry_z_ints, Z.geb_leb. reflexivity. }
+  rewrite Hr. destruct (match all with [] => false | x :: r => (zmin x r <? 0)%Z || (Z.of_nat d <=? zmax x r)%Z end); [reflexivity|].
+  destruct (Nat.eqb (List.length all) d).
+  - rewrite py_range_ints, py_set_eq_ints. destruct (set_eqb all (zrange d)); reflexivity.
+  - rewrite py_set_ints, map_length. destruct (Nat.eqb (List.length (dedup all)) (List.length all)); simpl; [|reflexivity].
+    f_equal. rewrite map_app. f_equal. rewrite py_range_ints, filter_map_ints, !map_map. simpl.
+    f_equal. apply filter_ext. intros z. rewrite py_in_ints. reflexivity.
+Qed.
+Lemma check_groups_golden_spec : forall g d,
+  check_groups_golden g d = option_map (map (map GInt)) (check_groups_entries g d).
+Proof.
+  intros g d. unfold check_groups_entries. destruct (all_int_groups g) as [gz|] eqn:E.
+  - apply all_int_groups_spec in E. subst g. apply check_groups_golden_ints.
+  - unfold check_groups_golden. cbv zeta. fold bad_entry. rewrite (all_int_groups_none g E). reflexivity.
+Qed.
+
+(* the scalar rules as regenerated are the rules of the hand model — proved semantically (case analysis on every comparison
+   + lia), so that an equivalent way of writing a test in the sources is accepted *)
+Ltac cmp_cases :=
+  rewrite ?Z.gtb_ltb, ?Z.geb_leb;
+  repeat match goal with
+  | |- context [Z.ltb ?a ?b] => destruct (Z.ltb_spec a b)
+  | |- context [Z.leb ?a ?b] => destruct (Z.leb_spec a b)
+  | |- context [Z.eqb ?a ?b] => destruct (Z.eqb_spec a b)
+  | |- context [Nat.ltb ?a ?b] => destruct (Nat.ltb_spec a b)
+  | |- context [Nat.leb ?a ?b] => destruct (Nat.leb_spec a b)
+  | |- context [Nat.eqb ?a ?b] => destruct (Nat.eqb_spec a b)
+  end; simpl; try reflexivity; try lia.
+Lemma kauri_cross_gen : forall leaf split, kauri_cross_ok leaf split = negb (kauri_cross_violated_gen leaf split).
+Proof. intros leaf split. unfold kauri_cross_ok, kauri_cross_violated_gen. cmp_cases. Qed.
+Lemma douglas_mask_gen : forall m d, douglas_mask_ok (Some m) d = negb (existsb (fun b => b) (douglas_mask_violated_gen m d)).
+Proof.
+  intros m d. unfold douglas_mask_ok, douglas_mask_violated_gen. simpl.
+  destruct (existsb (fun b => b) m); cmp_cases.
+Qed.
+Lemma precomputed_gen : forall ndim rows cols n numeric finite,
+  precomputed_ok ndim rows cols n numeric finite =
+    Nat.eqb ndim 2 && numeric && finite && negb (precomputed_shape_bad_gen rows cols n) /\
+  precomputed_shape_bad_gen rows cols n = kauri_precomputed_shape_bad_gen rows cols n.
+Proof.
+  intros. unfold precomputed_ok, precomputed_shape_bad_gen, kauri_precomputed_shape_bad_gen.
+  split; [destruct (Nat.eqb ndim 2), numeric, finite; simpl|]; cmp_cases.
+Qed.
+
+(* the regenerated definitions are, literally, the golden copies the models are built from (conversion): a moved store, a
+   changed comparison, a dropped test in the sources breaks these *)
+Lemma regenerated_check_groups_golden : forall g d, check_groups_gen g d = check_groups_golden g d.
+Proof. reflexivity. Qed.
+Lemma regenerated_events_golden :
+  base_fit_events = golden_base_fit /\ sparse_linear_fit_events = golden_sparse_fit /\ sparse_mlp_fit_events = golden_sparse_fit /\
+  kernelrim_fit_events = golden_kernelrim_fit /\ kauri_fit_events = golden_kauri_fit /\ douglas_init_events = golden_douglas_init.
+Proof. repeat split; reflexivity. Qed.
+Lemma regenerated_rules_golden :
+  (forall leaf split, kauri_cross_violated_gen leaf split = Z.gtb (leaf * 2) split) /\
+  (forall m d, douglas_mask_violated_gen m d = [negb (Nat.eqb (List.length m) d); negb (existsb (fun b => b) m)]) /\
+  (forall rows cols n, precomputed_shape_bad_gen rows cols n = negb (Nat.eqb rows cols) || negb (Nat.eqb rows n)) /\
+  (forall rows cols n, kauri_precomputed_shape_bad_gen rows cols n = negb (Nat.eqb rows cols) || negb (Nat.eqb rows n)).
+Proof.
+  split; [|split; [|split]]; intros.
+  - unfold kauri_cross_violated_gen. cmp_cases.
+  - unfold douglas_mask_violated_gen. repeat f_equal; destruct (existsb (fun b => b) m); cmp_cases.
+  - unfold precomputed_shape_bad_gen. cmp_cases.
+  - unfold kauri_precomputed_shape_bad_gen. cmp_cases.
+Qed.
+
+(* the fit models instantiated with the REGENERATED event lists *)
+Definition gen_fit_base (w : list string) (k : checks) : list step :=
+  interp k (fun _ => true) (fun _ => cross_ok k) (Check (cross_ok k) :: writes w) [] base_fit_events.
+Definition gen_fit_sparse_linear (w : list string) (k : checks) : list step :=
+  interp k (fun _ => true) (fun _ => cross_ok k) [] (gen_fit_base w k) sparse_linear_fit_events.
+Definition gen_fit_sparse_mlp (w : list string) (k : checks) : list step :=
+  interp k (fun _ => true) (fun _ => cross_ok k) [] (gen_fit_base w k) sparse_mlp_fit_events.
+Definition gen_fit_kernelrim (k : checks) : list step :=
+  interp k (fun _ => true) (fun _ => cross_ok k) [] (gen_fit_base ["W_"; "b_"]%string k) kernelrim_fit_events.
+Definition gen_fit_kauri (k : checks) : list step :=
+  interp k (fun _ => true) (fun _ => cross_ok k) [] [] kauri_fit_events.
+Definition gen_fit_douglas (mask_none len_ok sel_ok : bool) (k : checks) : list step :=
+  interp k (fun _ => true) (fun _ => true)
+    (interp k (fun _ => mask_none) (fun t => if String.eqb t douglas_len_test then len_ok else sel_ok) [] [] douglas_init_events) [] base_fit_events.
+Lemma gen_fits : (forall w k, gen_fit_base w k = fit_base w k) /\ (forall w k, gen_fit_sparse_linear w k = fit_sparse w k) /\
+  (forall w k, gen_fit_sparse_mlp w k = fit_sparse w k) /\ (forall k, gen_fit_kernelrim k = fit_kernelrim k) /\
+  (forall k, gen_fit_kauri k = fit_kauri k) /\ (forall a b c k, gen_fit_douglas a b c k = fit_douglas a b c k).
+Proof. repeat split; reflexivity. Qed.
